@@ -664,6 +664,51 @@ SAME_GUARD_TEXT = '''statechart:
                 action: y = y + 1
 '''
 
+DEEP_ENTRY_ORDER = '''statechart:
+  name: a transition into the depth of two nested orthogonal states whose names are in the opposite order of their depths
+''' + PRE + '''  root state:
+    name: root
+    initial: out
+    states:
+      - name: out
+        transitions:
+          - target: m2
+            event: e0
+          - target: z9
+            event: e1
+      - name: Zed
+        transitions:
+          - target: out
+            event: e2
+        parallel states:
+          - name: R1
+            initial: Ann
+            states:
+              - name: Ann
+                parallel states:
+                  - name: M
+                    initial: m1
+                    on entry: x = x * 3 + 1
+                    states:
+                      - name: m1
+                      - name: m2
+                        on entry: x = x * 3 + 2
+                  - name: N
+                    initial: n1
+                    on entry: y = y * 3 + 1
+                    states:
+                      - name: n1
+                        on entry: y = y * 3 + 2
+          - name: R2
+            initial: z1
+            on entry: y = y * 5 + 1
+            states:
+              - name: z1
+                on entry: y = y * 5 + 2
+              - name: z9
+                on entry: y = y * 5 + 3
+'''
+
 
 def deep_chain_yaml(depth=12):
     """root > line > {idle, s1 ... nested `depth` levels (level2..), H* deep history, h shallow history}; names like s1 / s10
@@ -750,6 +795,9 @@ def entries():
     out.append(('same_guard_text', SAME_GUARD_TEXT, None,
                 [('exec',), ('clock', 8), q('e1'), ('exec',), ('clock', 2), ('exec',), ('exec',), q('e0'), ('exec',), ('clock', 3), q('e1'), ('exec',),
                  ('clock', 2), q('e2'), ('exec',), ('clock', 2), q('e2'), ('exec',), ('clock', 4), ('exec',), ('exec',), ('clock', 10), ('exec',), ('exec',)]))
+
+    out.append(('deep_entry_order', DEEP_ENTRY_ORDER, None,
+                [('exec',), q('e0'), ('exec',), q('e2'), ('exec',), q('e1'), ('exec',), q('e2'), ('exec',), q('e0'), ('exec',), ('exec',)]))
 
     def add_noncontiguous(sc):
         from sismic.model import Transition
